@@ -82,6 +82,7 @@ func (u *Unit) execCall(st *State, instr ssa.Instruction, common *ssa.CallCommon
 		argTypes = append(argTypes, a.Type())
 	}
 	c, callee, name := u.calleeContract(common)
+	u.ghostBeforeCall(st, instr, name)
 	u.assertsAtCall(st, instr, name)
 	u.lockAtCall(st, instr, callee, c)
 	// closures: free variables are bound at the MakeClosure
@@ -90,15 +91,27 @@ func (u *Unit) execCall(st *State, instr ssa.Instruction, common *ssa.CallCommon
 		closure = mc
 	}
 	if callee == nil && !common.IsInvoke() {
+		// the value loaded from a captured cell of the parent that holds a single-assignment closure
+		if mc2, ok := u.resolveCellCall(common); ok {
+			closure = mc2
+			callee = mc2.Fn.(*ssa.Function)
+			c = u.eng.contractFor(callee)
+			name = funcPkgPath(callee) + "." + funcKey(callee)
+		}
+	}
+	if callee == nil && !common.IsInvoke() {
 		// call through a function value
 		fv := u.val(st, common.Value)
 		u.oblige(st, "safety", instr.Pos(), not(eq(fv, intLit(0))), "call of nil function value", u.safetyTags())
 		st.assume(not(eq(fv, intLit(0))))
-		if rs, ok := u.tableCall(st, instr, common, fv, args); ok {
-			return rs
-		}
-		if rs, ok := u.dynCall(st, instr, common, args); ok {
-			return rs
+		if c == nil {
+			// no function-type contract for the static type: resolve over the possible targets
+			if rs, ok := u.tableCall(st, instr, common, fv, args); ok {
+				return rs
+			}
+			if rs, ok := u.dynCall(st, instr, common, args); ok {
+				return rs
+			}
 		}
 	}
 	resTypes := resultTypes(sig)
@@ -203,6 +216,7 @@ func (u *Unit) applyContract(st *State, instr ssa.Instruction, c *Contract, name
 			ctx.vars[p] = a
 		}
 		if closure != nil {
+			ctx.cells = u.closureCells(ctx.st, closure)
 			fn := closure.Fn.(*ssa.Function)
 			for i, fv := range fn.FreeVars {
 				b := closure.Bindings[i]
@@ -210,6 +224,19 @@ func (u *Unit) applyContract(st *State, instr ssa.Instruction, c *Contract, name
 					ctx.vars[fv.Name()] = u.loadLoc(ctx.st, l)
 				} else if t, ok := ctx.st.vals[b]; ok {
 					ctx.vars[fv.Name()] = t
+				} else if l, ok := u.parentCellLoc(b); ok {
+					ctx.vars[fv.Name()] = u.loadLoc(ctx.st, l)
+				}
+			}
+			// variables of the closure's parent that sibling closures capture are visible by name too
+			for name, cell := range u.capturedCells(fn.Parent()) {
+				if _, clash := ctx.vars[name]; clash {
+					continue
+				}
+				if l, ok := ctx.st.locs[cell]; ok {
+					ctx.vars[name] = u.loadLoc(ctx.st, l)
+				} else if l, ok := u.parentCellLoc(cell); ok {
+					ctx.vars[name] = u.loadLoc(ctx.st, l)
 				}
 			}
 		}
@@ -243,7 +270,7 @@ func (u *Unit) applyContract(st *State, instr ssa.Instruction, c *Contract, name
 	u.lockEffects(st, c, name, args, pos)
 	// frame of the callee (locations are evaluated in the pre-state, which st still is)
 	var pre *State
-	if !c.Pure {
+	if !c.Pure && !(c.Applies != "" && !c.HasModifies && len(c.Preserves) == 0) {
 		// make sure every component the postconditions may read in the old state exists before the snapshot
 		pre = st.clone()
 		mark := len(pre.lines)
@@ -264,6 +291,30 @@ func (u *Unit) applyContract(st *State, instr ssa.Instruction, c *Contract, name
 	}
 	// modifies clauses that mention results (fresh objects returned by the callee)
 	u.havocResultFrame(st, c, bind, rs, resTypes)
+	for _, g := range c.GhostWrites {
+		if cur, ok := st.ghost[g]; ok {
+			nv := u.fresh(st, "ghost_"+g, cur.Sort, nil)
+			nv.T = cur.T
+			st.ghost[g] = nv
+		}
+	}
+	closureArgs := map[string]*ssa.MakeClosure{}
+	if ci, ok := instr.(ssa.CallInstruction); ok {
+		cc := ci.Common()
+		off := len(c.Params) - len(cc.Args)
+		for i, a := range cc.Args {
+			v := a
+			if ct, ok := v.(*ssa.ChangeType); ok {
+				v = ct.X
+			}
+			if mc, ok := v.(*ssa.MakeClosure); ok && i+off >= 0 && i+off < len(c.Params) {
+				closureArgs[c.Params[i+off]] = mc
+			}
+		}
+	}
+	if c.Applies != "" {
+		u.applyHOF(st, pre, instr, c, name, closureArgs[c.Applies])
+	}
 	calleeGhost := map[string]Term{}
 	for _, gv := range c.GhostVars {
 		sort := map[string]string{"int": SInt, "bool": SBool, "string": SStr, "intarray": arraySort(SInt, SInt),
@@ -276,6 +327,7 @@ func (u *Unit) applyContract(st *State, instr ssa.Instruction, c *Contract, name
 	for _, e := range c.Ensures {
 		ctx := &EvalCtx{u: u, st: st, old: pre, bound: map[string]bool{}}
 		bind(ctx)
+		ctx.closureArgs = closureArgs
 		for k, v := range calleeGhost {
 			ctx.vars[k] = v
 		}
@@ -786,5 +838,301 @@ func (u *Unit) ghostAfterCall(st *State, instr ssa.Instruction, name string) {
 		u.bindLocals(ctx, st, instr.Block())
 		u.ghostUpdates(st, g.At, ctx)
 		return
+	}
+}
+
+// closureEnv binds the free variables of a closure (created in this function) by name.
+func (u *Unit) closureEnv(st *State, mc *ssa.MakeClosure) map[string]Term {
+	env := map[string]Term{}
+	for name, l := range u.closureCells(st, mc) {
+		env[name] = u.loadLoc(st, l)
+	}
+	fn := mc.Fn.(*ssa.Function)
+	for i, fv := range fn.FreeVars {
+		if _, ok := env[fv.Name()]; ok {
+			continue
+		}
+		if t, ok := st.vals[mc.Bindings[i]]; ok {
+			env[fv.Name()] = t
+		}
+	}
+	return env
+}
+
+// closureCells: the cells behind the free variables of a closure created in this function (or its parent).
+func (u *Unit) closureCells(st *State, mc *ssa.MakeClosure) map[string]Loc {
+	out := map[string]Loc{}
+	fn := mc.Fn.(*ssa.Function)
+	for i, fv := range fn.FreeVars {
+		b := mc.Bindings[i]
+		if l, ok := st.locs[b]; ok {
+			out[fv.Name()] = l
+		} else if l, ok := u.parentCellLoc(b); ok {
+			out[fv.Name()] = l
+		}
+	}
+	return out
+}
+
+// applyHOF: the callee only applies its function argument. The invariants of the closure passed hold
+// before the call, the closure's frame is havocked (it may run any number of times), they hold after.
+func (u *Unit) applyHOF(st *State, pre *State, instr ssa.Instruction, c *Contract, name string, mc *ssa.MakeClosure) {
+	if mc == nil {
+		u.note(fmt.Sprintf("%s: %s applies a function value that is not a closure created here: nothing is known about its effect", u.key, shortName(name)))
+		u.havocAll(st)
+		return
+	}
+	fn2 := mc.Fn.(*ssa.Function)
+	c2 := u.eng.contractFor(fn2)
+	if c2 == nil {
+		u.note(fmt.Sprintf("%s: closure %s passed to %s has no contract: whole heap havocked", u.key, fn2.Name(), shortName(name)))
+		u.havocAll(st)
+		return
+	}
+	cname := funcPkgPath(fn2) + "." + funcKey(fn2)
+	u.usedContracts[cname] = true
+	if ci, ok := instr.(ssa.CallInstruction); ok {
+		for _, a := range ci.Common().Args {
+			v := a
+			var nt types.Type = a.Type()
+			if ct, ok := v.(*ssa.ChangeType); ok {
+				v = ct.X
+			}
+			if v != ssa.Value(mc) {
+				continue
+			}
+			if callee := ci.Common().StaticCallee(); callee != nil {
+				// the parameter type of the callee is the function type its body is checked against
+				for i, arg := range ci.Common().Args {
+					if arg == a && i < len(callee.Params) {
+						nt = callee.Params[i].Type()
+					}
+				}
+			}
+			if n, ok := nt.(*types.Named); ok && n.Obj().Pkg() != nil {
+				ftName := n.Obj().Pkg().Path() + "." + n.Obj().Name()
+				if ft, ok := u.eng.contracts.FuncTypes[ftName]; ok {
+					u.refines(pre, instr, mc, c2, ft, n.Obj().Name())
+				}
+			}
+		}
+	}
+	u.usedExternal[fmt.Sprintf("higher-order rule: %s only applies its function argument and does not itself write the footprint of the argument's invariants (assumed); the argument %s may run any number of times", shortName(name), funcKey(fn2))] = true
+	mkctx := func(s *State, old *State) *EvalCtx {
+		ctx := &EvalCtx{u: u, st: s, old: old, bound: map[string]bool{}, vars: map[string]Term{}}
+		ctx.pkg = calleePkg(fn2)
+		for k, v := range u.closureEnv(s, mc) {
+			ctx.vars[k] = v
+		}
+		ctx.cells = u.closureCells(s, mc)
+		for name, cell := range u.capturedCells(fn2.Parent()) {
+			if _, clash := ctx.vars[name]; clash {
+				continue
+			}
+			if l, ok := s.locs[cell]; ok {
+				ctx.vars[name] = u.loadLoc(s, l)
+				ctx.cells[name] = l
+			} else if l, ok := u.parentCellLoc(cell); ok {
+				ctx.vars[name] = u.loadLoc(s, l)
+				ctx.cells[name] = l
+			}
+		}
+		return ctx
+	}
+	// invariants hold before (pre is the state before the call)
+	for _, inv := range c2.Invariants {
+		ctx := mkctx(pre, nil)
+		g := ctx.eval(inv.Expr)
+		s2 := pre.clone()
+		for _, sd := range ctx.side {
+			s2.assume(sd)
+		}
+		u.oblige(s2, "pre", instr.Pos(), g, "invariant of "+funcKey(fn2)+" before "+shortName(name)+": "+inv.Text, inv.Tags)
+	}
+	// effects of any number of runs
+	if !c2.Pure {
+		if c2.HasModifies {
+			ctx := mkctx(st, nil)
+			var locs []frameLoc
+			for _, m := range c2.Modifies {
+				func() {
+					defer func() {
+						if r := recover(); r != nil {
+							if _, ok := r.(evalErr); ok {
+								u.note(fmt.Sprintf("%s: modifies entry %q of closure %s depends on its parameters; over-approximated by the whole component", u.key, m.Text, funcKey(fn2)))
+								return
+							}
+							panic(r)
+						}
+					}()
+					locs = append(locs, ctx.lvalues(m.Text)...)
+				}()
+			}
+			for _, l := range locs {
+				u.havocLoc(st, l, instr.Pos(), cname)
+			}
+		} else if len(c2.Preserves) > 0 {
+			u.havocAllExcept(st, c2.Preserves)
+		} else {
+			u.havocAllPassing(st, mc)
+		}
+	}
+	for _, g := range c2.GhostWrites {
+		if cur, ok := st.ghost[g]; ok {
+			nv := u.fresh(st, "ghost_"+g, cur.Sort, nil)
+			nv.T = cur.T
+			st.ghost[g] = nv
+		}
+	}
+	u.advanceAlloc(st)
+	for _, inv := range c2.Invariants {
+		ctx := mkctx(st, pre)
+		g := ctx.eval(inv.Expr)
+		for _, sd := range ctx.side {
+			st.assume(sd)
+		}
+		st.assume(g)
+	}
+}
+
+// capturedCells: the named variables of a function that its closures capture.
+func (u *Unit) capturedCells(parent *ssa.Function) map[string]ssa.Value {
+	out := map[string]ssa.Value{}
+	if parent == nil {
+		return out
+	}
+	for _, b := range parent.Blocks {
+		for _, ins := range b.Instrs {
+			if mc, ok := ins.(*ssa.MakeClosure); ok {
+				for _, bd := range mc.Bindings {
+					if al, ok := bd.(*ssa.Alloc); ok && al.Comment != "" {
+						out[al.Comment] = al
+					}
+				}
+			}
+		}
+	}
+	return out
+}
+
+// ghostBeforeCall executes `ghost at before call of F: v = expr` updates.
+func (u *Unit) ghostBeforeCall(st *State, instr ssa.Instruction, name string) {
+	if u.contract == nil {
+		return
+	}
+	for _, g := range u.contract.Ghosts {
+		if !strings.HasPrefix(g.At, "before call of ") {
+			continue
+		}
+		if shortName(name) != strings.TrimSpace(strings.TrimPrefix(g.At, "before call of ")) {
+			continue
+		}
+		ctx := u.newCtx(st, u.entry)
+		u.bindLocals(ctx, st, instr.Block())
+		u.ghostUpdates(st, g.At, ctx)
+		return
+	}
+}
+
+// refines: the contract c2 of the closure passed as a function value of named type T is compatible with the
+// function-type contract of T that the callee's code is checked against: under T's preconditions and the
+// closure's invariants the closure's own preconditions hold, and the closure's postconditions give T's.
+func (u *Unit) refines(st *State, instr ssa.Instruction, mc *ssa.MakeClosure, c2 *Contract, ft *Contract, ftName string) {
+	fn2 := mc.Fn.(*ssa.Function)
+	if len(ft.Params) != len(fn2.Params) {
+		u.oblige(st, "pre", instr.Pos(), tFalse, "function-type contract "+ftName+" and closure "+funcKey(fn2)+" disagree on the number of parameters", nil)
+		return
+	}
+	s2 := st.clone()
+	env := u.closureEnv(s2, mc)
+	var ps []Term
+	for _, p := range fn2.Params {
+		ps = append(ps, u.freshOf(s2, "any_"+p.Name(), p.Type()))
+	}
+	mk := func(c *Contract, withEnv bool, s *State, old *State) *EvalCtx {
+		ctx := &EvalCtx{u: u, st: s, old: old, bound: map[string]bool{}, vars: map[string]Term{}}
+		ctx.pkg = calleePkg(fn2)
+		if withEnv {
+			for k, v := range env {
+				ctx.vars[k] = v
+			}
+			for name, cell := range u.capturedCells(fn2.Parent()) {
+				if _, clash := ctx.vars[name]; clash {
+					continue
+				}
+				if l, ok := s.locs[cell]; ok {
+					ctx.vars[name] = u.loadLoc(s, l)
+				}
+			}
+		}
+		for i, pn := range c.Params {
+			t := ps[i]
+			t.T = fn2.Params[i].Type()
+			ctx.vars[pn] = t
+		}
+		return ctx
+	}
+	// T's preconditions and the closure's invariants ...
+	for _, r := range ft.Requires {
+		ctx := mk(ft, false, s2, nil)
+		s2.assume(ctx.eval(r.Expr))
+	}
+	isInv := map[string]bool{}
+	for _, inv := range c2.Invariants {
+		isInv[inv.Text] = true
+		ctx := mk(c2, true, s2, nil)
+		g := ctx.eval(inv.Expr)
+		for _, sd := range ctx.side {
+			s2.assume(sd)
+		}
+		s2.assume(g)
+	}
+	// ... give the closure's preconditions
+	for _, r := range c2.Requires {
+		if isInv[r.Text] {
+			continue
+		}
+		ctx := mk(c2, true, s2, nil)
+		g := ctx.eval(r.Expr)
+		s3 := s2.clone()
+		for _, sd := range ctx.side {
+			s3.assume(sd)
+		}
+		u.oblige(s3, "pre", instr.Pos(), g, funcKey(fn2)+" as "+ftName+": "+r.Text, r.Tags)
+	}
+	// the closure's postconditions give T's (over an arbitrary result; state-independent clauses only)
+	if len(ft.Ensures) > 0 && len(c2.Results) == len(ft.Results) {
+		s4 := s2.clone()
+		sig := fn2.Signature.Results()
+		var rs []Term
+		for i := 0; i < sig.Len(); i++ {
+			rs = append(rs, u.freshOf(s4, "any_result", sig.At(i).Type()))
+		}
+		bindRes := func(ctx *EvalCtx, c *Contract) {
+			for i, n := range c.Results {
+				t := rs[i]
+				t.T = sig.At(i).Type()
+				ctx.vars[n] = t
+			}
+		}
+		for _, e := range c2.Ensures {
+			func() {
+				defer func() {
+					if r := recover(); r != nil {
+						if _, ok := r.(evalErr); !ok {
+							panic(r)
+						}
+					}
+				}()
+				ctx := mk(c2, false, s4, nil)
+				bindRes(ctx, c2)
+				s4.assume(ctx.eval(e.Expr))
+			}()
+		}
+		for _, e := range ft.Ensures {
+			ctx := mk(ft, false, s4, nil)
+			bindRes(ctx, ft)
+			u.oblige(s4, "post", instr.Pos(), ctx.eval(e.Expr), funcKey(fn2)+" as "+ftName+" ensures: "+e.Text, e.Tags)
+		}
 	}
 }
